@@ -125,6 +125,13 @@ type enc struct {
 	entryLets  map[string]Val
 	rangeInfo  map[*ssa.Range]*rangeRec
 	defs       map[string]string
+	guardOf    map[ssa.Value]guardInfo
+}
+
+type guardInfo struct {
+	mutex string // term identifying the mutex
+	props []string
+	what  string
 }
 
 type frameRec struct {
